@@ -239,3 +239,7 @@ def reset_adversaries():
                 main['variants'] = [{'kind': 'H', 'state': True, 'calls': [last]}]
                 out.append(main)
     return out
+
+INJECTIONS += ['.-container\n""\n<b>never closed\n""', '.cls -container\n..\n<i>x\n..', '.-spans\n- <b>never closed\n- second',
+               '.-macros\n> <b>', '.-spans -macros\n<b>x', '.-container\n>>\n<b>\n>>', '.-spans\n> <script>alert(1)</script>',
+               '.-container -macros\n""\n<u>\n""', '.+skip\n""\n<b>\n""', '.-specials -container\n..\n<b>\n..']
